@@ -283,7 +283,7 @@ class XG(object):
         if depth <= 0 or x < 0.35:
             opts = ['name()', 'local-name()', 'string(.)', "'lit'", "'x'", 'namespace-uri()', 'string(@k)',
                     'name(..)', 'normalize-space()', "'a1'", 'string(@n)', 'name(*[1])', "''"]
-            sv = self.vars_of(sc, 'string') + self.vars_of(sc, 'rtf')
+            sv = self.vars_of(sc, 'string') + self.vars_of(sc, 'rtf') + self.vars_of(sc, 'param')
             if sv and r.random() < 0.4:
                 return '$' + r.choice(sv)
             return r.choice(opts)
@@ -506,7 +506,7 @@ class StyleGen(object):
             out.append('<xsl:sort%s/>' % a)
         return ''.join(out)
 
-    def with_params(self, sc, names):
+    def with_params(self, sc, names, **kw):
         r = self.r
         out = []
         for n in names:
@@ -514,7 +514,7 @@ class StyleGen(object):
                 if r.random() < 0.7:
                     out.append('<xsl:with-param name="%s" select="%s"/>' % (n, self.x.any(sc, 1)))
                 else:
-                    out.append('<xsl:with-param name="%s">%s</xsl:with-param>' % (n, self.body(sc, 1, 'any', novars=True)))
+                    out.append('<xsl:with-param name="%s">%s</xsl:with-param>' % (n, self.body(sc, 1, kw.pop('ctx', 'any'), novars=True, **kw)))
         return ''.join(out)
 
     def variable(self, sc, depth, ctx, in_foreach=False, named=False, tag='variable', name=None):
@@ -552,7 +552,7 @@ class StyleGen(object):
                 out.append('<xsl:copy-of select="%s"/>' % r.choice(['@*', '@k', '@n | @k', '*/@k', '../@*']))
             elif x < 0.85:
                 out.append('<xsl:for-each select="@*">%s</xsl:for-each>' % r.choice([
-                    '<xsl:copy/>', '<xsl:attribute name="{name()}-x"><xsl:value-of select="."/></xsl:attribute>',
+                    '<xsl:copy/>', '<xsl:attribute name="{local-name()}-x"><xsl:value-of select="name()"/></xsl:attribute>',
                     '<xsl:attribute name="{local-name()}"><xsl:value-of select="position()"/></xsl:attribute>']))
             else:
                 out.append('<xsl:if test="%s"><xsl:attribute name="c">%s</xsl:attribute></xsl:if>' % (self.x.boolean(sc, 1), self.text_piece()))
@@ -565,11 +565,11 @@ class StyleGen(object):
             return ' %suse-attribute-sets="%s"' % (prefix, ' '.join(r.choice(self.attrsets) for _ in range(k)))
         return ''
 
-    def number_instr(self, sc):
+    def number_instr(self, sc, ctx='any'):
         r = self.r
         x = r.random()
         a = ''
-        if x < 0.3:
+        if x < 0.3 or ctx == 'root':
             a += ' value="%s"' % r.choice(['position()', 'count(*) + 1', '3', 'last()', '27', 'position() * 7', '1234', 'count(ancestor::*) + 1', '2.5'])
         else:
             lv = r.choice(['single', 'multiple', 'any', None, None])
@@ -631,14 +631,15 @@ class StyleGen(object):
             xml, v = self.variable(sc, depth - 1, ctx, in_foreach, named)
             if v[0] in [n for n, _ in sc if (n, _) not in self.globals] :
                 return ''
+            sc[:] = [e for e in sc if e[0] != v[0]]
             sc.append(v)
             return xml
         if x < 0.62:
-            return self.number_instr(sc)
+            return self.number_instr(sc, ctx)
         if x < 0.66:
-            e = r.choice([self.x.string(sc, 1), self.x.number(sc, 1), self.x.boolean(sc, 1)])
+            e = r.choice([self.x.string(sc, 1), self.x.number(sc, 1), 'boolean(%s)' % self.x.boolean(sc, 1)])
             return '<xsl:copy-of select="%s"/>' % e
-        if x < 0.69 and self.named:
+        if x < 0.69 and self.named and not textonly:
             # call-template: a named template may only call later ones
             lo = 0
             if named is not False and named is not None and named is not True:
@@ -646,7 +647,7 @@ class StyleGen(object):
             cands = self.named[lo:] if named is not True else []
             if cands:
                 nm = r.choice(cands)
-                return '<xsl:call-template name="%s">%s</xsl:call-template>' % (nm, self.with_params(sc, self.named_params.get(nm, [])))
+                return '<xsl:call-template name="%s">%s</xsl:call-template>' % (nm, self.with_params(sc, self.named_params.get(nm, []), **kw))
             return self.text_piece()
         if x < 0.71:
             return '<xsl:message>%s</xsl:message>' % self.text_piece()
@@ -694,7 +695,7 @@ class StyleGen(object):
             return r.choice(['<xsl:comment>%s</xsl:comment>', '<xsl:processing-instruction name="t">%s</xsl:processing-instruction>',
                              '<xsl:processing-instruction name="{local-name(.)}x">%s</xsl:processing-instruction>']) \
                 % self.body(sc, 1, ctx, textonly=True, in_foreach=in_foreach, named=named, nitems=r.choice([1, 2]))
-        if x < 0.96 and not in_foreach and named is False and not in_var:
+        if x < 0.945 and not in_foreach and named is False and not in_var:
             return '<xsl:apply-imports/>'
         if named is True:
             return self.text_piece()
@@ -709,7 +710,7 @@ class StyleGen(object):
         if r.random() < 0.25:
             inner += self.sorts(sc)
         if r.random() < 0.4:
-            inner += self.with_params(sc, ['p1', 'p2'])
+            inner += self.with_params(sc, ['p1', 'p2'], **kw)
         return '<xsl:apply-templates%s>%s</xsl:apply-templates>' % (a, inner)
 
     def _no_attrs(self, sel):
@@ -738,7 +739,7 @@ class StyleGen(object):
         self.local_used = set()
         sc = list(self.globals)
         if is_root:
-            pat, kind = '/', 'any'
+            pat, kind = '/', 'root'
             attrs = ' match="/"'
             wrap = True
         else:
@@ -756,7 +757,7 @@ class StyleGen(object):
             if r.random() < 0.35:
                 xml, v = self.variable(sc, 1, kind, tag='param', name=pn)
                 params += xml
-                sc.append(v)
+                sc.append((pn, 'param'))
                 self.local_used.add(pn)
         b = self.body(sc, 4, kind, nitems=r.choice([1, 2, 3, 4]))
         if wrap:
@@ -772,12 +773,12 @@ class StyleGen(object):
         for pn in self.named_params[nm]:
             xml, v = self.variable(sc, 1, 'any', tag='param', name=pn, named=True)
             params += xml
-            sc.append(v)
+            sc.append((pn, 'param'))
             self.local_used.add(pn)
         extra = ''
         if r.random() < 0.2:
             extra = ' match="%s"' % r.choice(['c', 'd', 'b[@k]'])
-        return '<xsl:template name="%s"%s>%s%s</xsl:template>' % (nm, extra, params, self.body(sc, 3, 'any', named=idx, in_foreach=True))
+        return '<xsl:template name="%s"%s>%s%s</xsl:template>' % (nm, extra, params, self.body(sc, 3, 'root', named=idx, in_foreach=True))
 
     def generate(self, files):
         """fills files with main.xsl and imported/included modules; returns params"""
@@ -832,7 +833,7 @@ class StyleGen(object):
         for i in range(r.choice([0, 0, 1, 2, 3])):
             nm = 'g%d' % i
             self.local_used = set()
-            xml, v = self.variable(list(self.globals), 2, 'any', in_foreach=True, named=True,
+            xml, v = self.variable(list(self.globals), 2, 'root', in_foreach=True, named=True,
                                    tag=r.choice(['variable', 'variable', 'param']), name=nm)
             gdecl.append(xml)
             self.globals.append(v)
@@ -859,13 +860,15 @@ class StyleGen(object):
             if r.random() < 0.15 and kind != 'attr':
                 per[r.choice(names)].append('<xsl:key name="%s" match="%s" use="%s"/>' % (kn, 'c|d', use))
         for nm, xml in setdefs:
-            per[r.choice(names)].append(xml)
+            first_mod = r.choice(names)
+            per[first_mod].append(xml)
             if r.random() < 0.2 and len(names) > 1:
                 # same-named set in another module (merged by import precedence)
                 other = r.choice(names)
                 per[other].append('<xsl:attribute-set name="%s"><xsl:attribute name="%s">o</xsl:attribute></xsl:attribute-set>'
                                   % (nm, r.choice(['so', 'sa'])))
-                if shape in ('include', 'inc+imp'):
+                level = {'main.xsl': 0, 'm1.xsl': 0 if shape in ('include', 'inc+imp') else 1, 'm2.xsl': 2, 'm3.xsl': 3}
+                if level[other] == level[first_mod]:
                     self.flags.add('attrset-same-prec')
         for g in gdecl:
             per['main.xsl'].append(g)
@@ -974,7 +977,7 @@ def _docorder_shape(v):
     return False
 
 
-def run_reference(case, base, trig):
+def run_reference(case, base, trig, emulate=()):
     files = dict((base + n, t) for n, t in case.files.items())
 
     def res(href, b):
@@ -1003,6 +1006,11 @@ def run_reference(case, base, trig):
         if rule is None:
             if params and node.kind in ('element', 'root') and node.children:
                 trig.hit.add('builtin-params')
+                if 'builtin-params' in emulate:
+                    ch = node.children
+                    for i, n in enumerate(ch):
+                        self.apply_to(n, i + 1, len(ch), mode, params, out)
+                    return
             self.builtin(node, mode, out)
         else:
             self.run_template(rule.template, rule, node, pos, size, mode, params, out)
@@ -1028,8 +1036,89 @@ def run_reference(case, base, trig):
             m = c.rule.template.merged
             if st.find_rule(c.node, c.mode, m.lo, m.prec) is None:
                 trig.hit.add('apply-imports-builtin')
+        if c.rule is not None:
+            m = c.rule.template.merged
+            if st.find_rule(c.node, c.mode, m.lo, m.prec) is not st.find_rule(c.node, c.mode, 0, m.prec):
+                trig.hit.add('apply-imports-sibling')
         return orig_ai(self, st, c, out)
 
+    orig_attr = X._Attribute.run
+    orig_cmp = rx.compare
+    orig_tb = rx.to_boolean
+    orig_sort = X._sort_nodes
+
+    def odd_root(v):
+        if isinstance(v, list):
+            for n in v:
+                if n.kind == 'root' and not (len(n.children) == 1 and n.children[0].kind == 'element'):
+                    return True
+        return False
+
+    def cmp(op, a, b):
+        if op in ('=', '!=') and (odd_root(a) or odd_root(b)):
+            trig.hit.add('root-eq-hash')
+        return orig_cmp(op, a, b)
+
+    def tb(v):
+        if isinstance(v, list) and len(v) == 1 and v[0].kind == 'root' and getattr(v[0].doc, 'rtf', False) \
+                and not v[0].children:
+            trig.hit.add('rtf-empty-boolean')
+        return orig_tb(v)
+
+    def has_fn(e, names):
+        if isinstance(e, tuple):
+            if e and e[0] == 'fn' and e[1] is None and e[2] in names:
+                return True
+            return any(has_fn(x, names) for x in e)
+        return False
+
+    def sort_nodes(st, c, nodes, sorts):
+        for sp in sorts[1:]:
+            if has_fn(sp.select.ast, ('position', 'last')):
+                trig.hit.add('sort-secondary-position')
+        return orig_sort(st, c, nodes, sorts)
+
+    orig_force = X._Globals.force
+
+    def force(self, key):
+        if self.active and key in self.defs:
+            trig.hit.add('global-lazy-context')
+        return orig_force(self, key)
+
+    X._Globals.force = force
+    orig_match = X._Pattern.matches
+
+    def matches(self, st, node, variables):
+        if '[' in self.text and node.kind == 'element' and node.parent is not None:
+            for sib in node.parent.children:
+                if sib.kind == 'element' and sib.local == node.local and sib.uri != node.uri:
+                    trig.hit.add('pattern-pos-samelocal')
+                    break
+        return orig_match(self, st, node, variables)
+
+    X._Pattern.matches = matches
+    orig_sets = X._State.apply_attrsets
+
+    def apply_attrsets(self, names, c, out):
+        for nm in names:
+            defs = self.sheet.attrsets[nm]
+            if len(defs) > 1 and any(d.uses for d in defs):
+                trig.hit.add('attrset-multidef-uses')
+        return orig_sets(self, names, c, out)
+
+    X._State.apply_attrsets = apply_attrsets
+    rx.compare = cmp
+    rx.to_boolean = tb
+    X._sort_nodes = sort_nodes
+
+    def attr_run(self, st, c, out):
+        if self.namespace is not None:
+            q = X._split_qname(self.name.eval(st, c))
+            if q is not None and q[0] and q[0] in self.nsmap and self.nsmap[q[0]] != self.namespace.eval(st, c):
+                trig.hit.add('attr-ns-prefix-clash')
+        return orig_attr(self, st, c, out)
+
+    X._Attribute.run = attr_run
     X._ApplyTemplates.run = at_run
     X._ApplyImports.run = ai_run
     X._select_nodes = select_nodes
@@ -1049,6 +1138,13 @@ def run_reference(case, base, trig):
         X._State.apply_to = orig_apply
         X._CopyOf.run = orig_copyof
         X._ApplyTemplates.run = orig_at
+        X._Attribute.run = orig_attr
+        rx.compare = orig_cmp
+        X._Globals.force = orig_force
+        X._Pattern.matches = orig_match
+        X._State.apply_attrsets = orig_sets
+        rx.to_boolean = orig_tb
+        X._sort_nodes = orig_sort
         X._ApplyImports.run = orig_ai
 
 
@@ -1132,7 +1228,7 @@ def run_case(seed, deviant, tmp, keep=False, case=None):
         classes = set(trig.hit)
         if 'doc-xmlspace' in case.flags and 'strip' in case.flags:
             classes.add('xmlspace-strip')
-        for f in ('number-from', 'pattern-deviant', 'attrset-same-prec'):
+        for f in ('number-from', 'pattern-deviant'):
             if f in case.flags:
                 classes.add(f)
         if r.recoveries:
@@ -1145,6 +1241,17 @@ def run_case(seed, deviant, tmp, keep=False, case=None):
             return 'libxslt-error', classes, 'unparsable output: %s' % e
         if mine == theirs:
             return 'agree', classes, ''
+        if 'builtin-params' in classes:
+            # libxslt passes parameters through the built-in rules: verify that
+            # this alone explains the difference
+            t2 = Triggers()
+            try:
+                r2 = run_reference(case, base, t2, emulate=('builtin-params',))
+                if strip_top(X.dump(r2)) == theirs:
+                    return 'differ', set(['builtin-params(emulated)']), ''
+            except Exception:                                        # noqa
+                pass
+            classes.discard('builtin-params')
         return 'differ', classes, 'ref     %r\n   libxslt %r\n   stderr %s' % (mine, theirs, err[:200])
     finally:
         if not keep:
@@ -1156,7 +1263,9 @@ def reduce_case(seed, deviant, tmp):
     from xml.dom import minidom
     case = Case(seed, deviant)
     st0 = run_case(seed, deviant, tmp, case=case)
-    want = st0[0]
+    def sig(st):
+        return (st[0], tuple(sorted(c for c in st[1] if c.startswith('recovery:'))))
+    want = sig(st0)
     print('reducing seed %d, status %s' % (seed, want))
     files = dict(case.files)
 
@@ -1165,7 +1274,7 @@ def reduce_case(seed, deviant, tmp):
             st = run_case(seed, deviant, tmp, case=Case(seed, deviant, fs, case.params, case.flags))
         except Exception:
             return False
-        return st[0] == want
+        return sig(st) == want
 
     def nodes_of(dom):
         out = []
@@ -1241,6 +1350,7 @@ def reduce_case(seed, deviant, tmp):
 
 def worker(args):
     seeds, deviant, tmp = args
+    sys.setrecursionlimit(6000)
     res = []
     for s in seeds:
         try:
@@ -1258,6 +1368,7 @@ def main():
     ap.add_argument('--deviant', action='store_true', help='also generate triggers of documented libxslt deviations')
     ap.add_argument('--show', type=int, help='run one seed, keep and print everything')
     ap.add_argument('--reduce', type=int, help='greedily reduce a disagreeing seed')
+    ap.add_argument('--seeds-of', help='print the seeds of non-agreeing cases whose class list contains this substring')
     ap.add_argument('-v', action='store_true')
     ap.add_argument('--max-print', type=int, default=12)
     a = ap.parse_args()
@@ -1284,15 +1395,21 @@ def main():
         printed = 0
         bad = 0
         badseeds = []
+        unsup = {}
         with Pool(a.j) as pool:
             for res in pool.imap_unordered(worker, jobs):
                 for seed, status, classes, detail in res:
                     stats[status] = stats.get(status, 0) + 1
+                    if status == 'unsupported':
+                        k = detail[:60]
+                        unsup[k] = unsup.get(k, 0) + 1
                     if status in ('agree', 'unsupported'):
                         continue
                     explained = sorted(c for c in classes if not c.startswith('recovery:')) if status in ('differ', 'libxslt-error') else []
                     rec = [c for c in classes if c.startswith('recovery:')]
                     key = (status, tuple(explained or rec))
+                    if a.seeds_of and a.seeds_of in ','.join(sorted(classes)):
+                        print('seed %d %s %s' % (seed, status, sorted(classes)))
                     byclass[key] = byclass.get(key, 0) + 1
                     if not explained and not rec or status in ('ref-error', 'crash'):
                         bad += 1
@@ -1306,6 +1423,8 @@ def main():
         print('%d cases in %.1f s: %s' % (len(seeds), dt, ', '.join('%s=%d' % kv for kv in sorted(stats.items()))))
         for key, n in sorted(byclass.items(), key=lambda kv: -kv[1]):
             print('   %-14s %-50s %d' % (key[0], ','.join(key[1]) or '(none: UNEXPLAINED)', n))
+        for k, n in sorted(unsup.items(), key=lambda kv: -kv[1])[:12]:
+            print('   unsupported: %-60s %d' % (k, n))
         print('unexplained: %d %s' % (bad, sorted(badseeds)[:40]))
         return 1 if bad else 0
     finally:
